@@ -27,6 +27,11 @@ def facts(repo, f, H):
     if "p.deleteTime > 0" not in nd:
         raise ValueError("buildNotDeletedDocIDList: unrecognised shape")
     f["repairSkipsReplacedDoc"] = "bytes.Equal(p.id" in nd
+    # buildDeleteFromTimeDocuments: the id lookup is limited to the number of listed ids (model: `hits`)
+    bd = H.func_body(repo, "banyand/property/db/shard.go", r"func \(s \*shard\) buildDeleteFromTimeDocuments\(")
+    if "s.search(ctx, iq, nil, len(docID))" not in bd:
+        raise ValueError("buildDeleteFromTimeDocuments: lookup limit has an unrecognised shape")
+    f["deleteLookupLimitIsIdCount"] = True
 
     # liaison: order used to pick the previous property / the query winner
     src = H.read(repo, "banyand/liaison/grpc/property.go")
